@@ -178,8 +178,13 @@ Definition run_model (e : sexp) : sexp :=
 Definition spec_panics (rs : list reg) : bool :=
   existsb (fun r => negb ((rmin r <=? rmax r) && (rmax r <=? 30))) rs
   || existsb (fun r => existsb (fun r' => (rname r =? rname r') && negb (Bool.eqb (riter r) (riter r'))) rs) rs.
-Definition spec_call (rs : list reg) (n cnt : N) : option (N * bool) :=
-  option_map (fun r => (rcb r, riter r)) (find (covers n cnt) (rev rs)).
+(* the property's reading: every arity a name was registered with is callable and runs ONE OF the functions
+   registered for it (which one, when registrations overlap, is the code's business: model / arity_mask) *)
+Definition spec_call_ok (rs : list reg) (n cnt : N) (impl : sexp) : bool :=
+  match filter (covers n cnt) rs with
+  | [] => atom_is "rejected" impl
+  | l => existsb (fun r => call_eqb (Some (rcb r, riter r)) impl) l
+  end.
 
 (* split "k=v" at the first '=' by searching, independent of cut_eq *)
 Fixpoint index_of (c : N) (l : list N) (i : nat) : option nat :=
@@ -204,7 +209,8 @@ Definition run_spec (e : sexp) : sexp :=
         match dec_regs rs, dec_N n, dec_N cnt with
         | Some rs, Some n, Some cnt =>
             if spec_panics rs then (if atom_is "panic" impl then A "ok" else bad (A "panic"))
-            else let r := spec_call rs n cnt in if call_eqb r impl then A "ok" else bad (enc_call r)
+            else if spec_call_ok rs n cnt impl then A "ok"
+                 else bad (SList (A "one-of" :: map (fun r => enc_call (Some (rcb r, riter r))) (filter (covers n cnt) rs)))
         | _, _, _ => A "undecodable"
         end
       else if atom_is "vars" k then
